@@ -58,10 +58,8 @@ def run(case):
     gen = IdentifierGenerator(case.get("gen_start", 0))
     # the shared default generators are process-global state: set them to the state reached after
     # case["default_calls"] earlier calls, so that a case is a pure function of its description
-    for fn in (NA.nfa_union, NA.nfa_repetition):
-        for dflt in (fn.__defaults__ or ()):
-            if isinstance(dflt, IdentifierGenerator):
-                dflt.index = case.get("default_calls", 0)
+    from harness.libstate import set_identifier_generators
+    set_identifier_generators(case.get("default_calls", 0))
     nt = False
     cls = set()
     steps = 0
